@@ -286,3 +286,139 @@ def fileHead (si : SInfo) (total : Nat) (md5 : List Nat) (minBlock : Nat) : List
   [0x66, 0x4C, 0x61, 0x43, 0x80, 0, 0, 34] ++ bitsToBytes bits ++ md5
 
 end Flac.Gen2
+
+namespace Flac.Gen2
+open Flac
+
+def mapNth (xs : List α) (i : Nat) (f : α → α) : List α :=
+  (List.zip (List.range xs.length) xs).map fun (j, x) => if j == i then f x else x
+
+def subMapResidual (s : Subframe) (f : Residual → Residual) : Subframe :=
+  match s.body with
+  | .fixed o w r => { s with body := .fixed o w (f r) }
+  | .lpc o w p sh c r => { s with body := .lpc o w p sh c (f r) }
+  | _ => s
+
+/-- checksum-consistent but malformed / extreme variants of a valid frame.
+    Returns (frame, class, mustReject): `mustReject` = the RFC forbids the construct outright. -/
+def mutateFrame0 (m : Made) : G (Frame × String × Bool) := do
+  let f := m.frame
+  let nsub := f.subs.length
+  let i ← below (max nsub 1)
+  let depth := subBps f.hdr.assign f.hdr.bps i
+  let kind ← below 22
+  let setHdr (h : Header) : Frame := { f with hdr := h }
+  let setSub (g : Subframe → Subframe) : Frame := { f with subs := mapNth f.subs i g }
+  match kind with
+  | 0 => pure (setHdr { f.hdr with bsCode := 0 }, "block-size-code-0000", true)
+  | 1 => pure (setHdr { f.hdr with rateCode := 15 }, "sample-rate-code-1111", true)
+  | 2 => pure (setHdr { f.hdr with bpsCode := 3 }, "sample-size-code-011", true)
+  | 3 => pure (setHdr { f.hdr with reserved2 := true }, "reserved-header-bit", false)
+  | 4 => pure (setSub fun s => { s with wasted := depth }, "wasted-equals-depth", true)
+  | 5 => do let e ← below 5; pure (setSub fun s => { s with wasted := depth + e + 1 }, "wasted-exceeds-depth", true)
+  | 6 => pure (setSub fun s => match s.body with
+                | .lpc o w _ sh c r => { s with body := .lpc o w 16 sh c r }
+                | _ => s, "lpc-precision-1111", (f.subs.getD i default).body matches .lpc ..)
+  | 7 => pure (setSub fun s => match s.body with
+                | .lpc o w p _ c r => { s with body := .lpc o w p 31 c r }
+                | _ => s, "lpc-negative-shift", (f.subs.getD i default).body matches .lpc ..)
+  | 8 => do
+    let m ← pick [2, 3]
+    pure (setSub fun s => subMapResidual s fun r => { r with method := m }, "coding-method-reserved",
+          match (f.subs.getD i default).body with | .fixed .. => true | .lpc .. => true | _ => false)
+  | 9 | 10 | 11 => do
+    -- any written partition order with a partition list of that many entries
+    let po ← below 16
+    let bs := f.hdr.blockSize
+    let valid : Bool := bs % 2 ^ po == 0
+    pure (setSub fun s => subMapResidual s fun r =>
+            let order := match s.body with | .fixed o .. => o | .lpc o .. => o | _ => 0
+            let all := r.residuals.map fun x => Int.emod x 1000 - 500
+            let sizes := (bs / 2 ^ po - order) :: List.replicate (2 ^ po - 1) (bs / 2 ^ po)
+            { r with order := po, parts := (splitBy sizes (all ++ List.replicate (bs + 1) 0)).map fun chunk => Partition.rice (if r.method == 0 then 3 else 17) chunk },
+          "partition-order-any", false && valid)
+  | 12 => do
+    -- a residual whose folded value does not fit 32 bits (RFC: residuals are 32-bit, minus the most negative)
+    let big ← pick [(2147483648 : Int), 2147483653, -2147483649, 4294967296, -4294967297, 6442450944]
+    pure (setSub fun s => subMapResidual s fun r =>
+            { r with method := 1, parts := r.parts.map fun p => match p with
+                | .rice _ (_ :: rs) => .rice 30 (big :: rs)
+                | .escaped _ (_ :: rs) => .rice 30 (big :: rs)
+                | .zero (n+1) => .rice 30 (big :: List.replicate n 0)
+                | q => q },
+          "residual-beyond-32-bits",
+          match (f.subs.getD i default).body with | .fixed _ _ r => r.residuals.length > 0 | .lpc _ _ _ _ _ r => r.residuals.length > 0 | _ => false)
+  | 13 => do
+    -- a residual that drives the reconstructed sample far outside its depth
+    let d ← pick [(1 : Int), -1]
+    pure (setSub fun s => subMapResidual s fun r =>
+            { r with method := 1, parts := r.parts.map fun p => match p with
+                | .rice _ (x :: rs) => .rice 29 ((x + d * 2147483000) % 2147483647 :: rs)
+                | q => q },
+          "sample-leaves-depth", false)
+  | 14 => pure ({ f with padding := f.padding.map fun _ => true }, "nonzero-padding", false)
+  | 15 => do
+    -- FIXED order larger than the block
+    let bs := f.hdr.blockSize
+    if bs < 4 then
+      pure (setSub fun s => { s with body := .fixed 4 (List.replicate 4 0) { method := 0, order := 0, parts := [.zero 0] } }, "fixed-order-exceeds-block", true)
+    else pure (f, "unchanged", false)
+  | 16 => do
+    let bs := f.hdr.blockSize
+    if bs < 32 then
+      let o := bs + 1
+      pure (setSub fun s => { s with body := .lpc o (List.replicate o 0) 5 0 (List.replicate o 1) { method := 0, order := 0, parts := [.zero 0] } }, "lpc-order-exceeds-block", true)
+    else pure (f, "unchanged", false)
+  | 17 => do
+    -- extreme LPC: maximal coefficients and full-scale warm-up, random residuals
+    let bs := f.hdr.blockSize
+    let o := min 32 (bs - 1)
+    if o == 0 then pure (f, "unchanged", false) else
+    let lo : Int := -(2 ^ (depth - 1) : Nat)
+    let hi : Int := (2 ^ (depth - 1) : Nat) - 1
+    let warm ← listOf o (pick [lo, hi])
+    let coefs ← listOf o (pick [(16383 : Int), -16384])
+    let rs ← listOf (bs - o) (pick [(2147483647 : Int), -2147483647, 0, 1])
+    let sh ← below 4
+    pure (setSub fun _ => { wasted := 0, body := .lpc o warm 15 sh coefs { method := 1, order := 0, parts := [.rice 30 rs] } }, "extreme-lpc", false)
+  | 18 => do
+    -- extreme stereo: full-scale mid/side or left/side samples
+    let bs := f.hdr.blockSize
+    if nsub != 2 then pure (f, "unchanged", false) else
+    let a ← pick [Assign.leftSide, .sideRight, .midSide]
+    let mk (j : Nat) : G Subframe := do
+      let d := subBps a f.hdr.bps j
+      let lo : Int := -(2 ^ (d - 1) : Nat)
+      let hi : Int := (2 ^ (d - 1) : Nat) - 1
+      let xs ← listOf bs (pick [lo, hi, lo + 1, 0, -1])
+      pure { wasted := 0, body := .verbatim xs }
+    let s0 ← mk 0
+    let s1 ← mk 1
+    let bits := (writeSubframes a f.hdr.bps [s0, s1] 0).length
+    pure ({ f with hdr := { f.hdr with assign := a }, subs := [s0, s1], padding := List.replicate ((8 - bits % 8) % 8) false }, "extreme-stereo", false)
+  | 19 => do
+    -- wasted bits that shift a full-scale sample out of its width
+    let bs := f.hdr.blockSize
+    let w := depth - 1
+    pure (setSub fun _ => { wasted := w, body := .verbatim (List.replicate bs (-1)) }, "wasted-max", false)
+  | 20 => do
+    -- zero-width escape partitions only (samples produced without consuming input)
+    let bs := f.hdr.blockSize
+    pure (setSub fun _ => { wasted := 0, body := .fixed 0 [] { method := 0, order := 0, parts := [.zero bs] } }, "all-zero-partition", false)
+  | _ => do
+    -- a one-sample block with partition order 1 (the decoder used to panic slicing it)
+    let h := { f.hdr with bsCode := 6, blockSize := 1 }
+    let sub : Subframe := { wasted := 0, body := .fixed 0 [] { method := 0, order := 1, parts := [.zero 0, .zero 0] } }
+    let subs := List.replicate nsub sub
+    let bits := (writeSubframes h.assign h.bps subs 0).length
+    pure ({ f with hdr := h, subs, padding := List.replicate ((8 - bits % 8) % 8) false }, "one-sample-block-order-1", true)
+
+/-- as `mutateFrame0`, with the padding recomputed so that the frame stays byte aligned
+    (the padding bits are set when the class asks for non-zero padding) -/
+def mutateFrame (m : Made) : G (Frame × String × Bool) := do
+  let (fr, cls, must) ← mutateFrame0 m
+  let bits := (writeSubframes fr.hdr.assign fr.hdr.bps fr.subs 0).length
+  let n := (8 - bits % 8) % 8
+  pure ({ fr with padding := List.replicate n (cls == "nonzero-padding") }, cls, must)
+
+end Flac.Gen2
